@@ -532,12 +532,15 @@ class Effects:
             if gs:
                 recv = self.slicer.operand(fn, c.args[0]) if c.args else None
                 b = self._comb_binding(c, recv) if recv is not None else None
-                for a in c.args:
+                for ai, a in enumerate(c.args):
                     clv = self.slicer.operand(fn, a)
                     g, off = self._closure_fn(clv)
                     if g is not None and g in gs:
                         gs = [x for x in gs if x is not g]
-                        self._expand_closure(fn, c, clv, [b] if (b is not None and g.argc > off) else [], forall, 'may', mapping, chain, stack, out, implied=b)
+                        ba = b
+                        if ai == 1 and (c.decl or '').startswith('std::result::Result::') and (c.decl or '').endswith('::map_or_else'):
+                            ba = ('unwrap_err', recv)    # Result::map_or_else(default, f): `default` receives the error
+                        self._expand_closure(fn, c, clv, [ba] if (ba is not None and g.argc > off) else [], forall, 'may', mapping, chain, stack, out, implied=ba)
                 for g in gs:
                     out.extend(self.expand(g, 'may', None, mapping, chain + (Link(c, mapping),), stack))
 
